@@ -222,6 +222,8 @@ pub struct PeerSession {
     pub outgoing_window: u32,
     pub lib_begin_seen: bool,
     pub ended_by_lib: bool,
+    /// the peer has already sent its end on this session
+    pub end_sent: bool,
 }
 
 #[derive(Debug, Clone)]
@@ -237,6 +239,8 @@ pub struct PeerLink {
     pub credit: u32,
     pub attached_by_peer: bool,
     pub detached: bool,
+    /// the peer has already sent its detach for this attachment
+    pub detach_sent: bool,
 }
 
 pub struct Peer {
@@ -252,6 +256,8 @@ pub struct Peer {
     cursor: usize,
     pub sasl_mode: bool,
     pub stream_error: Option<String>,
+    /// the peer has already sent its close
+    pub close_sent: bool,
 }
 
 impl Peer {
@@ -268,6 +274,7 @@ impl Peer {
             cursor: 0,
             sasl_mode: false,
             stream_error: None,
+            close_sent: false,
         }
     }
 
@@ -308,11 +315,26 @@ impl Peer {
         let mut body = encode_perf(&p);
         body.extend_from_slice(payload);
         let bytes = frame_bytes(0, channel, &body);
-        // bookkeeping for transfers we send
-        if let Performative::Transfer(_) = &p {
-            if let Some(s) = self.sessions.values_mut().find(|s| s.our_channel == channel) {
-                s.next_outgoing_id = s.next_outgoing_id.wrapping_add(1);
+        // bookkeeping for what we send
+        match &p {
+            Performative::Transfer(_) => {
+                if let Some(s) = self.sessions.values_mut().find(|s| s.our_channel == channel) {
+                    s.next_outgoing_id = s.next_outgoing_id.wrapping_add(1);
+                }
             }
+            Performative::End(_) => {
+                if let Some(s) = self.sessions.values_mut().find(|s| s.our_channel == channel) {
+                    s.end_sent = true;
+                }
+            }
+            Performative::Detach(d) => {
+                let lib_ch = self.sessions.values().find(|s| s.our_channel == channel).map(|s| s.lib_channel).unwrap_or(channel);
+                if let Some(l) = self.links.iter_mut().find(|l| l.lib_channel == lib_ch && l.our_handle == d.handle.0 && !l.detached && !l.detach_sent) {
+                    l.detach_sent = true;
+                }
+            }
+            Performative::Close(_) => self.close_sent = true,
+            _ => {}
         }
         self.record(Dirn::FromPeer, bytes.len() as u32, 2, 0, channel, Body::Perf(p), payload.to_vec());
         self.send_raw(&bytes);
@@ -566,6 +588,7 @@ impl Peer {
                     credit: 0,
                     attached_by_peer: false,
                     detached: false,
+                    detach_sent: false,
                 });
                 if self.auto.attach {
                     let lib_is_sender = a.role == Role::Sender;
@@ -677,7 +700,10 @@ impl Peer {
                     .find(|l| l.lib_channel == ch && l.lib_handle == d.handle.0 && !l.detached)
                 {
                     l.detached = true;
-                    reply = Some(l.our_handle);
+                    // a detach that answers OUR detach needs no further answer
+                    if !l.detach_sent {
+                        reply = Some(l.our_handle);
+                    }
                 }
                 if self.auto.detach {
                     if let Some(oh) = reply {
@@ -693,19 +719,21 @@ impl Peer {
             }
             Performative::End(_) => {
                 let och = self.our_channel(ch);
+                let mut already = false;
                 if let Some(s) = self.sessions.get_mut(&ch) {
                     s.ended_by_lib = true;
+                    already = s.end_sent;
                 }
                 for l in self.links.iter_mut().filter(|l| l.lib_channel == ch) {
                     l.detached = true;
                 }
-                if self.auto.end {
+                if self.auto.end && !already {
                     self.send(och, Performative::End(End { error: None }));
                 }
                 self.sessions.remove(&ch);
             }
             Performative::Close(_) => {
-                if self.auto.close {
+                if self.auto.close && !self.close_sent {
                     self.send(0, Performative::Close(Close { error: None }));
                 }
             }
